@@ -1,0 +1,55 @@
+//go:build verif
+
+package meta
+
+import "github.com/coregx/coregex/dfa/lazy"
+
+// VerifCacheSize describes one lazy-DFA cache of the parked search state.
+type VerifCacheSize struct {
+	Name              string
+	States            int
+	Bytes             int
+	CapacityBytes     int
+	LargestStateBytes int
+}
+
+// VerifStateSizes describes the mutable per-search state that the engine keeps
+// alive between searches (the GC-proof single slot).
+type VerifStateSizes struct {
+	Caches         []VerifCacheSize
+	VisitedEntries int // len(BacktrackerState.Visited)
+	VisitedCap     int // cap(BacktrackerState.Visited)
+	VisitedLimit   int // BoundedBacktracker.MaxVisitedSize(), 0 if there is no backtracker
+}
+
+// VerifStateSizes inspects the parked search state without resetting it.
+// It must be called at a quiescent point (no search in flight on this engine).
+// ok is false when the slot is empty. Compiled only with -tags verif.
+func (e *Engine) VerifStateSizes() (sizes VerifStateSizes, ok bool) {
+	state := e.localState.Swap(nil)
+	if state == nil {
+		return sizes, false
+	}
+	add := func(name string, c *lazy.DFACache) {
+		if c == nil {
+			return
+		}
+		capacity, _, largest := c.VerifCapacity()
+		sizes.Caches = append(sizes.Caches, VerifCacheSize{Name: name, States: c.Size(), Bytes: c.MemoryUsage(), CapacityBytes: capacity, LargestStateBytes: largest})
+	}
+	add("dfaCache", state.dfaCache)
+	add("revDFACache", state.revDFACache)
+	add("stratFwdCache", state.stratFwdCache)
+	add("stratRevCache", state.stratRevCache)
+	if state.backtracker != nil {
+		sizes.VisitedEntries = len(state.backtracker.Visited)
+		sizes.VisitedCap = cap(state.backtracker.Visited)
+	}
+	if e.boundedBacktracker != nil {
+		sizes.VisitedLimit = e.boundedBacktracker.MaxVisitedSize()
+	}
+	if !e.localState.CompareAndSwap(nil, state) {
+		e.statePool.put(state)
+	}
+	return sizes, true
+}
